@@ -45,6 +45,20 @@ class FrozenDataError(Exception):
     extra: Any = None
 
 
+class FalsyError(Exception):
+    """An exception instance that is false in a boolean context (`if result.exception:` is not `is not None`)."""
+
+    def __bool__(self):
+        return False
+
+
+class NoFindings(Exception):
+    """An aggregate-of-findings exception with a length: raised with nothing in it, it is empty, hence falsy."""
+
+    def __len__(self):
+        return 0
+
+
 class SignatureError(Exception):
     """Own constructor signature; keeps args in step with it, so it pickles."""
 
@@ -54,6 +68,8 @@ class SignatureError(Exception):
 
 
 EXC = {
+    "FalsyError": FalsyError,
+    "NoFindings": NoFindings,
     "FrozenError": FrozenError,
     "FrozenDataError": FrozenDataError,
     "SignatureError": SignatureError,
@@ -84,7 +100,7 @@ EXC = {
 CAPTURABLE = [
     "ValueError", "KeyError", "OSError", "AssertionError", "ZeroDivisionError", "IndexError",
     "UnicodeError", "StopIteration", "CustomParseError", "InterruptedError", "TimeoutError", "PermissionError", "EOFError", "MemoryError",
-    "FrozenError", "FrozenDataError", "SignatureError",
+    "FrozenError", "FrozenDataError", "SignatureError", "FalsyError", "NoFindings",
 ]
 SUPER = {
     "KeyError": "LookupError", "IndexError": "LookupError", "ZeroDivisionError": "ArithmeticError",
